@@ -18,11 +18,14 @@ import (
 	"verifharness/hx"
 )
 
-const Rule = "cases = (register kinds u/s/a/d = unordered/stable/sorted-asc/sorted-desc, shuffle script, op list) from VERIF_SEED " +
-	"over universes of 4-12 ints: Add/Remove/RemoveAll/Contains/Size/All/String/Equal/IsSubset/IsSuperset/Clone/CloneEmpty/" +
-	"Union/Intersection/Difference with 0-4 operands of any mix (incl. the receiver itself), Powerset n<=7, Partitions n<=6; " +
-	"every register other than the destination is compared with its String() snapshot after every op (operand immutability, " +
-	"clone independence). non-trivial = the history contains a set-algebra call whose receiver and operands use at least two " +
+const Rule = "cases = (register kinds: u unordered, s stable, sorted with comparator a/d = -1,0,+1 ascending/descending, b = a-b, " +
+	"c = 7*(a-b), e = b-a; shuffle script; op list) from VERIF_SEED over universes of 4-40 ints: New(vals...)/Add/Remove (also " +
+	"repeating a value inside one call)/RemoveAll/Contains/Size/All/String/Equal/IsSubset/IsSuperset (also of a set with itself)/" +
+	"Clone/CloneEmpty/AnyMatch/AllMatch/FirstMatch/SelectMatch/PartitionMatch/Union/Intersection/Difference with 0-6 operands of " +
+	"any mix (the receiver itself, the same operand twice), Powerset n<=7, Partitions n<=6, and edits of every member of a " +
+	"Powerset/Partitions result; aliasing cases edit every result (Clone/Union/Intersection/Difference/SelectMatch/PartitionMatch) " +
+	"and then the operands, at sizes 3-17; every register other than the destination is compared with its String() snapshot " +
+	"after every op. non-trivial = the history contains a set-algebra call whose receiver and operands use at least two " +
 	"different implementations and are not all empty, or an effective Remove followed by a later observation of that register, " +
 	"or a sorted insert at a non-final position, or Powerset/Partitions with n>=3; distinct = distinct (header, op list)"
 
